@@ -165,6 +165,66 @@ theorem masterType_total :
     ∀ ty ∈ ["title", "body", "ctrTitle", "subTitle", "dt", "sldNum", "ftr", "obj", "chart", "tbl", "clipArt", "dgm", "media", "pic"],
       ∃ mt ∈ ["title", "body", "dt", "ftr", "sldNum"], masterType ty.toList = some mt.toList := by decide
 
+/-! ### "until overridden", one dimension at a time -/
+
+/-- **Assigning one dimension changes that reading and no other**: afterwards the assigned dimension reads the value,
+    and each of the other three reads what it read before — its own value, or the inherited one — the only exception
+    being the partner of a pair that so far reported NOTHING (no own element, nothing inherited), which necessarily
+    becomes 0 because `a:off` / `a:ext` hold two values. For every own geometry, inherited geometry, dimension and value. -/
+theorem setDim_spec (o : OwnGeom) (i : Inh) (d : Dim) (v : Int) :
+    readDim (setDim o i d v) i d = some v ∧
+    ∀ e, e ≠ d → (readDim (setDim o i d v) i e = readDim o i e ∨
+      (readDim o i e = none ∧ readDim (setDim o i d v) i e = some 0)) := by
+  obtain ⟨off, ext⟩ := o
+  obtain ⟨il, it, iw, ih⟩ := i
+  refine ⟨?_, ?_⟩
+  · cases d <;> simp [setDim, readDim]
+  · intro e he
+    cases d <;> cases e <;> simp_all [setDim, readDim] <;>
+      (first | (cases off <;> simp_all <;> (try (cases it <;> simp_all)) <;> (try (cases il <;> simp_all)))
+             | (cases ext <;> simp_all <;> (try (cases ih <;> simp_all)) <;> (try (cases iw <;> simp_all))))
+
+/-- the last value assigned to a dimension in a history, if any -/
+def lastDim : List (Dim × Int) → Dim → Option Int
+  | [], _ => none
+  | op :: rest, d => match lastDim rest d with
+    | some v => some v
+    | none => if op.1 = d then some op.2 else none
+
+/-- **Any history of single-dimension assignments**: when the placeholder reported all four values before (the normal
+    case: the layout or master gives the geometry), afterwards each dimension reads the last value assigned to it, or
+    what it read at the start when it was never assigned. By induction over the history. -/
+theorem runDims_spec (ops : List (Dim × Int)) (o : OwnGeom) (i : Inh)
+    (hall : ∀ e, (readDim o i e).isSome = true) (d : Dim) :
+    readDim (runDims o i ops) i d = (match lastDim ops d with | some v => some v | none => readDim o i d) := by
+  induction ops generalizing o with
+  | nil => simp [runDims, lastDim]
+  | cons op rest ih =>
+    have hrun : runDims o i (op :: rest) = runDims (setDim o i op.1 op.2) i rest := by simp [runDims]
+    obtain ⟨hself, hother⟩ := setDim_spec o i op.1 op.2
+    have hall' : ∀ e, (readDim (setDim o i op.1 op.2) i e).isSome = true := by
+      intro e
+      by_cases he : e = op.1
+      · subst he; simp [hself]
+      · rcases hother e he with h | ⟨_, h⟩
+        · rw [h]; exact hall e
+        · simp [h]
+    rw [hrun, ih (setDim o i op.1 op.2) hall']
+    simp only [lastDim]
+    cases hl : lastDim rest d with
+    | some v => rfl
+    | none =>
+      by_cases hd : op.1 = d
+      · subst hd; simp [hself]
+      · simp only [hd, if_false]
+        rcases hother d (fun h => hd h.symm) with h | ⟨h, _⟩
+        · exact h
+        · have := hall d; rw [h] at this; simp at this
+
+example : readDim (setDim ⟨none, none⟩ ⟨some 10, some 20, some 30, some 40⟩ .left 7) ⟨some 10, some 20, some 30, some 40⟩ .top = some 20 := by decide
+example : readDim (runDims ⟨none, none⟩ ⟨some 10, some 20, some 30, some 40⟩ [(.width, 5), (.left, 7), (.width, 6)])
+    ⟨some 10, some 20, some 30, some 40⟩ .height = some 40 := by decide
+
 example : reported none 3 [(3, "subTitle".toList, none)] [("title".toList, some 1), ("body".toList, some 0)] = some 0 := by decide
 
 example : nextPhName "Title".toList 3 ["Title 2".toList, "Title 3".toList] = some "Title 4".toList := by decide
